@@ -61,7 +61,7 @@ def register_names(fam):
             for f in lvl["named"]:
                 for it in (D.field_leaves(f) if f["kind"] in ("switch", "reqflag", "arg", "alt", "adj") else []):
                     if it.get("env"):
-                        NAMES[d["id"]][it["id"]] = it["shorts"] + it["longs"] + [it["env"]]
+                        NAMES[d["id"]][it["id"]] = it["shorts"] + it["longs"] + [it["env"]] + ([it["env2"]] if it.get("env2") else [])
 
 
 def run(v):
